@@ -424,18 +424,18 @@ Fixpoint unroot (t : rtree) (u : option td) : option td :=
        end) children (option_map (fun u => t_add_node u b) u)
   end.
 
-(** the loop [for c in connected_components(g)]; result: [inl tree] = early [return unrooted]
-    (the ub == 0 branch), [inr comptrees] otherwise *)
+(** the loop [for c in connected_components(g)] (as of /repo 96ab4c3: a single-vertex component,
+    [ub == 0], contributes the one-bag tree and the loop continues) *)
 Fixpoint acb_loop (g : graph) (comps : list (list nat)) (comptrees : list rtree)
-  : option (td + list rtree) :=
+  : option (list rtree) :=
   match comps with
-  | [] => Some (inr comptrees)
+  | [] => Some comptrees
   | c :: comps' =>
     let cg := restrict g c in
     match min_fill cg with
     | None => None
     | Some (ub, _) =>
-      if ub =? 0 then Some (inl ([sort_set (gverts cg)], []))
+      if ub =? 0 then acb_loop g comps' (comptrees ++ [RNode (sort_set (gverts cg)) []])
       else match acb_try_k cg ub 1 with
            | ATree t => acb_loop g comps' (comptrees ++ [t])
            | _ => None
@@ -449,9 +449,8 @@ Definition acb (g : graph) : option td :=
   | Some comps =>
     match acb_loop g comps [] with
     | None => None
-    | Some (inl t) => Some t
-    | Some (inr [t]) => unroot t (Some ([], []))
-    | Some (inr ts) => unroot (RNode [] ts) (Some ([], []))
+    | Some [t] => unroot t (Some ([], []))
+    | Some ts => unroot (RNode [] ts) (Some ([], []))
     end
   end.
 
